@@ -230,6 +230,36 @@ theorem storeAt_replaceTransport_same {inst : Instance} {s : State} (hs : Shape 
   · rename_i h; rw [h, h1]; exact (storeAt_of_mem (hs.bufNodup w) (mem_allBufs_of_transport ht)).symm
   · rfl
 
+/-! ### buffers living in different parts of the state have different ids -/
+
+theorem ids_parts {inst : Instance} {s : State} (hs : Shape inst s) (w : WF inst) :
+    (∀ b ∈ s.buffers, ∀ m ∈ s.machines, b.id ≠ m.pre.id ∧ b.id ≠ m.buffer.id ∧ b.id ≠ m.post.id) ∧
+    (∀ b ∈ s.buffers, ∀ t ∈ s.transports, b.id ≠ t.buffer.id) ∧
+    (∀ m ∈ s.machines, ∀ t ∈ s.transports, m.pre.id ≠ t.buffer.id ∧ m.buffer.id ≠ t.buffer.id ∧ m.post.id ≠ t.buffer.id) := by
+  have hnd := hs.bufNodup w
+  unfold allBufStates at hnd
+  simp only [List.map_append, List.map_flatMap, List.map_map] at hnd
+  rw [List.nodup_append] at hnd
+  obtain ⟨h12, _, hd3⟩ := hnd
+  rw [List.nodup_append] at h12
+  obtain ⟨_, _, hd12⟩ := h12
+  refine ⟨?_, ?_, ?_⟩
+  · intro b hb m hm
+    have f : ∀ x ∈ [m.pre.id, m.buffer.id, m.post.id], b.id ≠ x := by
+      intro x hx
+      apply hd12 b.id (List.mem_map.mpr ⟨b, hb, rfl⟩) x
+      exact List.mem_flatMap.mpr ⟨m, hm, by simpa using hx⟩
+    exact ⟨f _ (by simp), f _ (by simp), f _ (by simp)⟩
+  · intro b hb t ht
+    apply hd3 b.id (List.mem_append.mpr (Or.inl (List.mem_map.mpr ⟨b, hb, rfl⟩))) t.buffer.id
+    exact List.mem_map.mpr ⟨t, ht, rfl⟩
+  · intro m hm t ht
+    have f : ∀ x ∈ [m.pre.id, m.buffer.id, m.post.id], x ≠ t.buffer.id := by
+      intro x hx
+      apply hd3 x (List.mem_append.mpr (Or.inr (List.mem_flatMap.mpr ⟨m, hm, by simpa using hx⟩))) t.buffer.id
+      exact List.mem_map.mpr ⟨t, ht, rfl⟩
+    exact ⟨f _ (by simp), f _ (by simp), f _ (by simp)⟩
+
 @[simp] theorem storeAt_replaceJob (s : State) (j : JobState) (i : Nat) :
     storeAt (s.replaceJob j) i = storeAt s i := rfl
 
